@@ -72,11 +72,12 @@ Definition catalogue : list inst_entry := inst_sizes.
 
 (* -------- correspondence: one request -> [name, capacities of that name] -------- *)
 Definition val_caps (c : caps3) : val := VLZ [core c; ram c; disk c].
-Definition observe_inst (req : caps3) : val :=
-  match map_caps catalogue req with
-  | Some n => VL [VS n; VOpt val_caps (get_caps catalogue n)]
+Definition observe_inst_in (cat : list inst_entry) (req : caps3) : val :=
+  match map_caps cat req with
+  | Some n => VL [VS n; VOpt val_caps (get_caps cat n)]
   | None => VErr (S"model-None")
   end.
+Definition observe_inst (req : caps3) : val := observe_inst_in catalogue req.
 Definition check_inst (x : caps3 * val) : bool := val_eqb (observe_inst (fst x)) (snd x).
 
 (* -------- correspondence of Base/PySort.v alone: comparator id, tagged triples, expected tag order ---- *)
@@ -294,3 +295,35 @@ Definition val_member (m : str * N * option comp_entry) : val :=
   VL [VS k; VZ (Z.of_N v); VOpt (fun e => VL [VS (e_model e); VS (e_type e)]) e].
 Definition check_enum (x : unit * val) : bool :=
   val_eqb (VL (map val_member (enum_members comp_catalog))) (snd x).
+
+(* ------------------------------------------------------------------------------------------ *)
+(* histories of calls                                                                           *)
+(* ------------------------------------------------------------------------------------------ *)
+(* The only state the two catalogue classes keep between calls is the parsed resource files (class-level
+   caches).  A history is a sequence of calls; between calls the caller may modify IN PLACE anything it holds:
+   the request object it passed, the id / label lists, every object an earlier call returned (OpSkip: not an
+   operation of the catalogues).  hstep threads the state explicitly so that "no state leaks between calls"
+   is a statement about this model (Proofs/Catalog18Hist.v) and the `history` stream compares whole histories. *)
+Record cstate := { s_inst : list inst_entry; s_comp : list comp_entry }.
+Inductive hop := OpMap (req : caps3) | OpGen (c : comp_case) | OpSkip.
+
+Definition gen_case_val (cat : list comp_entry) (c : comp_case) : val :=
+  let '(name, s, nsid, ids, labs, parent) := c in val_comp (gen_component cat name s nsid ids labs parent).
+
+Definition hstep (s : cstate) (o : hop) : cstate * val :=
+  match o with
+  | OpMap r => (s, observe_inst_in (s_inst s) r)
+  | OpGen c => (s, gen_case_val (s_comp s) c)
+  | OpSkip => (s, VNone)
+  end.
+
+Fixpoint hrun (s : cstate) (ops : list hop) : cstate * list val :=
+  match ops with
+  | [] => (s, [])
+  | o :: r => let '(s1, v) := hstep s o in let '(s2, vs) := hrun s1 r in (s2, v :: vs)
+  end.
+
+Definition init_state : cstate := {| s_inst := catalogue; s_comp := comp_catalog |}.
+
+Definition check_hist (x : list hop * list val) : bool :=
+  list_eqb val_eqb (snd (hrun init_state (fst x))) (snd x).
